@@ -20,6 +20,7 @@ import (
 	"fmt"
 	"io"
 	"log/slog"
+	"strings"
 
 	"github.com/pkg/errors"
 	"google.golang.org/grpc"
@@ -102,6 +103,10 @@ func (s *publicRpcServer) Write(ctx context.Context, write *proto.WriteRequest) 
 		slog.Any("req", write),
 	)
 
+	if err := validateClientWrite(write); err != nil {
+		return nil, err
+	}
+
 	lc, err := s.getLeader(*write.Shard)
 	if err != nil {
 		return nil, err
@@ -119,6 +124,28 @@ func (s *publicRpcServer) Write(ctx context.Context, write *proto.WriteRequest) 
 	return wr, err
 }
 
+// validateClientWrite rejects, before the request is appended to the log, the client operations
+// that address the internal key space: the records there belong to the server (term, commit
+// offset, notifications, sessions, secondary indexes) and not all of them are storage entries.
+func validateClientWrite(write *proto.WriteRequest) error {
+	for _, put := range write.Puts {
+		if strings.HasPrefix(put.Key, constant.InternalKeyPrefix) {
+			return status.Errorf(codes.InvalidArgument, "oxia: key %q is reserved", put.Key)
+		}
+	}
+	for _, del := range write.Deletes {
+		if strings.HasPrefix(del.Key, constant.InternalKeyPrefix) {
+			return status.Errorf(codes.InvalidArgument, "oxia: key %q is reserved", del.Key)
+		}
+	}
+	for _, dr := range write.DeleteRanges {
+		if strings.HasPrefix(dr.StartInclusive, constant.InternalKeyPrefix) || strings.HasPrefix(dr.EndExclusive, constant.InternalKeyPrefix) {
+			return status.Errorf(codes.InvalidArgument, "oxia: key range [%q, %q) is reserved", dr.StartInclusive, dr.EndExclusive)
+		}
+	}
+	return nil
+}
+
 func procesWriteStream(streamCtx context.Context, finished chan<- error, stream proto.OxiaClient_WriteStreamServer, lc LeaderController) {
 	for {
 		req, err := stream.Recv()
@@ -132,6 +159,11 @@ func procesWriteStream(streamCtx context.Context, finished chan<- error, stream 
 		}
 		if req == nil {
 			channel.PushNoBlock(finished, errors.New("stream closed"))
+			return
+		}
+
+		if err := validateClientWrite(req); err != nil {
+			channel.PushNoBlock(finished, err)
 			return
 		}
 
